@@ -102,3 +102,6 @@ Theorem C10_leaf_contract_means : forall (A : Type) (NA : Num A) (L : Type) (ops
   (forall l s, length s = l_n L ops l -> square (l_n L ops l) (l_hess L ops l s)) /\
   (forall l, length (l_bounds L ops l) = l_n L ops l).
 Proof. intros; reflexivity. Qed.
+Example C10_tree_contract_is_satisfiable : forall (A : Type) (NA : Num A),
+  leaf_contract (ex_ops (A:=A)) /\ wf_len (ex_ops (A:=A)) ex_tree /\ rows (ex_ops (A:=A)) ex_tree = 4%nat /\ dlen (ex_ops (A:=A)) ex_tree = 2%nat.
+Proof. intros A NA. split; [exact ex_contract|exact ex_tree_ok]. Qed.
